@@ -17,6 +17,7 @@ converter; written files compared after the header.'''
 import itertools
 import json
 import random
+import re
 
 import common
 import impl
@@ -352,26 +353,37 @@ def known_class(base_text, text, base, new, msg):
     if len(a) != len(b):
         return None
     diff = [(x, y) for x, y in zip(a, b) if x != y]
-    if len(diff) != 1 or not fortran_only(diff[0][1]):
+    if len(diff) != 1:
         return None
-    old, tok = diff[0]
+    # "(1.0+0" / "0.5d0)": the number inside the parenthesis
+    old, tok = [re.sub(r'^[^()]*\(|\).*$', '', t) for t in diff[0]]
+    if not fortran_only(tok):
+        return None
     if impl.mcnp_float(old) != impl.mcnp_float(tok):
         return None
     if 'could not convert string to float' not in msg \
             or repr(tok).lower() not in msg.lower():
         return None
-    # the card holding the token: a surface card or a TR data card
+    # the card holding the token: a surface card, a TR data card, or a cell
+    # card where the token stands inside the parentheses of FILL= / TRCL=
     from MIP.mip.blocks import get_block_positions
     from MIP.mip.cards import get_cards
     from MIP.mip.main import Card
     dres = get_block_positions(text)
-    for key in 'sd':
+    for key in 'csd':
         block = text[slice(*dres[key][0])]
         for lines, _, _ in get_cards(block, skipcomments=True):
-            words = Card(lines=lines).content().split()
-            if tok in words[1:]:
-                if key == 's' or words[0].lower().lstrip('*').startswith('tr'):
-                    return 'fortran_spelling_surface_or_tr'
+            content = Card(lines=lines).content()
+            words = content.replace('(', ' ').replace(')', ' ').split()
+            if tok not in words[1:]:
+                continue
+            if key == 's' or (key == 'd' and
+                              words[0].lower().lstrip('*').startswith('tr')):
+                return 'fortran_spelling_surface_or_tr'
+            if key == 'c' and re.search(
+                    r'(fill|trcl)\s*=?\s*\d*\s*\([^()]*' + re.escape(tok)
+                    + r'[^()]*\)', content, flags=re.I):
+                return 'fortran_spelling_inline_fill_or_trcl'
     return None
 
 
@@ -427,17 +439,18 @@ def run_sweep(res, tier, rng):
         # canonical text in a Fortran-only spelling (known defect); nothing
         # else is changed, so the class predicate stays narrow
         if base[0] == 'ok' and k % 4 == 0:
-            text = D.render_one_fortran(deck, rng)
-            if text is not None:
-                n_known += 1
-                res.seen(text)
-                res.count('sweep:stream:fortran_surface_or_tr')
-                compare(base_text, base, text,
-                        {'used': ['number:fortran-surface-or-tr'],
-                         'stream': 'fortran_surface_or_tr'}, True, res, args)
+            for where in ('surface_or_tr', 'inline'):
+                text = D.render_one_fortran(deck, rng, where)
+                if text is not None:
+                    n_known += 1
+                    res.seen(text)
+                    res.count('sweep:stream:fortran_' + where)
+                    compare(base_text, base, text,
+                            {'used': ['number:fortran-' + where],
+                             'stream': 'fortran_' + where}, True, res, args)
     res.obligation(f'sweep: {n_decks} decks x {n_rewrites} random layouts '
-                   f'(+ {n_known} single Fortran-only respellings of a surface '
-                   f'or TR parameter, labelled stream), {n_ok} converted, '
+                   f'(+ {n_known} single Fortran-only respellings of a surface, '
+                   f'TR or inline FILL/TRCL parameter, labelled stream), {n_ok} converted, '
                    f'{n_fail} rejected (the rewrite must be rejected the same '
                    'way)', n_ok > n_fail, 'most generated decks must convert')
 
@@ -445,21 +458,23 @@ def run_sweep(res, tier, rng):
 # ---------------------------------------------------------------------------
 # known findings
 # ---------------------------------------------------------------------------
-WITNESS_BASE = ('witness\n1 1 {rho} -1 imp:n=1\n2 0 1 imp:n=0\n\n'
-                '1 1 so {r}\n\ntr1 {t} 0 0\nm1 1001 2 8016 {f}\n')
+WITNESS_BASE = ('witness\n1 1 {rho} -1 imp:n=1\n2 0 1 -2 fill=1 ({x} 0 0) imp:n=1\n'
+                '3 0 -3 u=1 imp:n=1\n4 0 3 u=1 imp:n=1\n5 0 2 imp:n=0\n\n'
+                '1 1 so {r}\n2 so 9.0\n3 so 1.0\n\ntr1 {t} 0 0\nm1 1001 2 8016 {f}\n')
 WITNESSES = [
-    ('SO 5.0+0', dict(rho='-1.0', r='5.0+0', t='1.0', f='1.0')),
-    ('TR1 1.0+0 0 0', dict(rho='-1.0', r='5.0', t='1.0+0', f='1.0')),
-    ('SO 5.0d0', dict(rho='-1.0', r='5.0d0', t='1.0', f='1.0')),
+    ('SO 5.0+0', dict(rho='-1.0', r='5.0+0', t='1.0', f='1.0', x='1.0')),
+    ('TR1 1.0+0 0 0', dict(rho='-1.0', r='5.0', t='1.0+0', f='1.0', x='1.0')),
+    ('SO 5.0d0', dict(rho='-1.0', r='5.0d0', t='1.0', f='1.0', x='1.0')),
+    ('FILL=1 (1.0+0 0 0)', dict(rho='-1.0', r='5.0', t='1.0', f='1.0', x='1.0+0')),
     # spellings the converter handles (densities, fractions): must stay fine
-    ('density -1.0+0', dict(rho='-1.0+0', r='5.0', t='1.0', f='1.0')),
-    ('density -1.0e0', dict(rho='-1.0e0', r='5.0', t='1.0', f='1.0')),
-    ('fraction 1.0d0', dict(rho='-1.0', r='5.0', t='1.0', f='1.0d0')),
+    ('density -1.0+0', dict(rho='-1.0+0', r='5.0', t='1.0', f='1.0', x='1.0')),
+    ('density -1.0e0', dict(rho='-1.0e0', r='5.0', t='1.0', f='1.0', x='1.0')),
+    ('fraction 1.0d0', dict(rho='-1.0', r='5.0', t='1.0', f='1.0d0', x='1.0')),
 ]
 
 
 def run_witnesses(res):
-    base_text = WITNESS_BASE.format(rho='-1.0', r='5.0', t='1.0', f='1.0')
+    base_text = WITNESS_BASE.format(rho='-1.0', r='5.0', t='1.0', f='1.0', x='1.0')
     base = outcome(impl.convert(base_text, keep_stdout=False))
     for label, fields in WITNESSES:
         text = WITNESS_BASE.format(**fields)
